@@ -310,9 +310,11 @@ func positionToOffset(lines []string, pos Position) int {
 	for i := 0; i < pos.Line && i < len(lines); i++ {
 		offset += len(lines[i]) + 1 // +1 for newline
 	}
-	if pos.Line < len(lines) {
+	if pos.Line >= 0 && pos.Line < len(lines) {
 		lineLen := len(lines[pos.Line])
-		if pos.Character < lineLen {
+		if pos.Character < 0 {
+			// negative character: start of the line
+		} else if pos.Character < lineLen {
 			offset += pos.Character
 		} else {
 			offset += lineLen
@@ -352,14 +354,15 @@ func positionToOffset(lines []string, pos Position) int {
 // This method is safe for concurrent use as it operates on document fields
 // without modifying state.
 func (doc *Document) GetWordAtPosition(pos Position) string {
-	if pos.Line >= len(doc.Lines) {
+	// Positions come from the client and may be negative or past the end
+	if pos.Line < 0 || pos.Line >= len(doc.Lines) {
 		return ""
 	}
 
 	line := doc.Lines[pos.Line]
 	runes := []rune(line)
 
-	if pos.Character >= len(runes) {
+	if pos.Character < 0 || pos.Character >= len(runes) {
 		return ""
 	}
 
